@@ -14,9 +14,9 @@ from . import drivers, tlc
 from .common import MachineryError, Result, scratch, use_repo
 
 CLAUSES = {
-    "C13": {"b64", "hex", "xor", "found:b64", "found:atob", "found:Base64Decode", "found:FromBase64String", "found:hex",
+    "C13": {"b64", "hex", "xor", "found:b64", "found:b64wrap", "found:atob", "found:Base64Decode", "found:FromBase64String", "found:hex",
             "found:FromHexString", "found:xor"},
-    "C14": {"xml", "chr", "unescape", "utf16", "found:xmldec", "found:xmlhex", "found:chr", "found:unescape", "found:utf16"},
+    "C14": {"xml", "chr", "unescape", "utf16", "found:xmldec", "found:xmlhex", "found:xmlmix", "found:chr", "found:unescape", "found:utf16"},
     "C15": {"concat", "reverse", "replace", "found:concat", "found:reverse", "found:replace.method", "found:replace.vba",
             "found:replace.ps", "found:replace.js"},
 }
@@ -25,8 +25,8 @@ LABELS = {
     "C14": {"unescape.xml", "function.chr", "function.unescape", "codec.uft-16"},
     "C15": {"concatenation", "reverse", "vba.reverse", "replace", "vba.replace"},
 }
-PRE = [b"", b" ", b"x = ", b"abc;\n", b"1234567 ", b"\x00\x01 "]
-SUF = [b"", b" ", b";", b"\n", b" tail", b")"]
+PRE = [b"", b" ", b"x = ", b"abc;\n", b"1234567 ", b"\x00\x01 ", b"y = CreateObject(", b"call f("]
+SUF = [b"", b" ", b";", b"\n", b" tail", b")", b") : z", b" "]
 
 
 def b2l(b: bytes) -> list[int]:
@@ -97,6 +97,13 @@ def instances(prop: str, tier: str, rng: random.Random) -> list[dict]:
                 payloads += [bytes([fill]) * run + rb(rng, 30), rb(rng, 30) + bytes([fill]) * run]
         for p in payloads:
             add("b64", p, base64.b64encode(p))
+        for sep in (b"\n", b"\r\n", b"\r", b"&#13;&#10;", b"&#10;", b"&#13;\n", b"&#xD;\r\n"):
+            for width in (4, 16, 64, 76):
+                for n in (17, 48, 57, 100):
+                    p = rb(rng, n)
+                    t = base64.b64encode(p)
+                    lines = [t[i:i + width] for i in range(0, len(t), width)]
+                    add("b64wrap", p, sep.join(lines), opts={"dq": False, "width": width}, sep=b2l(sep))
         for p in [rb(rng, n) for n in range(1, 30)] + [rb(rng, 40, TEXT) for _ in range(5 if not big else 40)]:
             dq = rng.random() < 0.5
             q = b'"' if dq else b"'"
@@ -130,6 +137,16 @@ def instances(prop: str, tier: str, rng: random.Random) -> list[dict]:
         for p in chunks:
             add("xmldec", p, b"".join(b"&#%d;" % c for c in p))
             add("xmlhex", p, b"".join(b"&#x%02x;" % c for c in p))
+        for _ in range(60 if not big else 600):
+            p = rb(rng, rng.randint(5, 12))
+            mask = [rng.choice([0, 1, 2, 3]) for _ in p]
+            if rng.random() < 0.5:
+                mask[0] = rng.choice([1, 2])          # a run that starts with a hexadecimal reference
+                p = bytes(max(c, 100) if m in (0, 3) else c for c, m in zip(p, mask))   # ... and whose decimals have three digits
+            parts = []
+            for c, m in zip(p, mask):
+                parts.append([b"&#%d;" % c, b"&#x%02x;" % c, b"&#X%02X;" % c, b"&#%03d;" % c][m])
+            add("xmlmix", p, b"".join(parts), mask=mask)
         cps = [0, 1, 9, 10, 13, 32, 39, 65, 127, 128, 255, 256, 2047, 2048, 55295, 55296, 56000, 57343, 57344, 65535, 65536, 99999]
         cps += [rng.randrange(100000) for _ in range(400 if not big else 6000)]
         if big:
@@ -162,6 +179,8 @@ def instances(prop: str, tier: str, rng: random.Random) -> list[dict]:
             return q + body + q
 
         def body(maxn=6) -> bytes:
+            if rng.random() < 0.15:       # text that looks like a separator or an entity inside a literal
+                return rng.choice([b"a&amp;b", b"&amp;", b"x+y", b"1 & 2", b"?a=1&amp;b=", b"+b", b"a&", b"_ +"]) + rb(rng, rng.randint(0, 2), lit_alpha)
             return rb(rng, rng.randint(0, maxn), lit_alpha)
 
         seps = [b"+", b"&", b"&amp;", b" + ", b" & ", b" &amp; ", b"\t+\n", b" _\r\n& ", b"+ _\n", b"  +", b"&  "]
@@ -234,7 +253,8 @@ def run(prop: str, tier: str) -> int:
             suf = b" "
         data = pre + blob + suf
         try:
-            tree = md.scan(data)
+            md.scan(data)
+            tree = md.scan(data)        # judged on the second scan of the same buffer by the same scanner (results must not depend on history)
         except Exception as e:  # noqa: BLE001
             inst = dict(inst, pre=b2l(pre), suf=b2l(suf), found=[], raised=type(e).__name__)
             push(inst)
@@ -256,6 +276,8 @@ def run(prop: str, tier: str) -> int:
             form = [b"-bxor %d", b"-xor %d", b"-BXOR\t%d"][kx % 3] % kx
             call = [b"FromBase64String('" + base64.b64encode(p) + b"')", b"[System.Convert]::FromHexString('" + hexenc(p + bytes(10), kx % 2 == 0) + b"')"][kx % 2]
             inputs.append(b"$k = " + form + b"; " + call)
+            if kx > 255:
+                inputs.append(b"$k = " + form + b"; " + call)          # the same out-of-range key met twice in a row
         for kx in (0, 35, 255, 300):
             arr = b",".join(rng.choice([b"%d", b"0x%02x", b" %d"]) % rng.randrange(256) for _ in range(520))
             inputs.append(arr + b" | % { $_ -bxor " + str(kx).encode() + b" }")
